@@ -69,8 +69,10 @@ def correspondence(rep, work, cases, select=None, project=None, flavor='plain', 
 
 def theorem_applicability(work, cases, shared=None, tag='mdlx'):
     """Evaluate the decision predicates of coq/Proofs_Decide.v (extracted through ExtractX.v) on every snapshot the model takes
-    while it runs `cases`: returns {case id: [(ls_ok, ls4_ok) per `snap` line that produced a dump]}.  ls_ok = the hypotheses of
-    the round-trip theorem hold of that object (C01_decided), ls4_ok = those of the second-generation theorem (C04_decided)."""
+    while it runs `cases`: returns {case id: [(ok, ok4, flags, plain) per `snap` line that produced a dump]}.  ok = the hypotheses of
+    the round-trip theorem hold of that object (C01_decided / C01_decided_points_only: for an object without channels the frames
+    are first normalised to the header's number of empty sub-frames), ok4 = those of the second-generation theorem (C04_decided*),
+    flags = the hypotheses one by one, plain = C01_decided applies without normalisation."""
     from lib import build
     exe = build.build_modelx()
     env = dict(os.environ); env['EZ_LS'] = '1'
@@ -83,7 +85,7 @@ def theorem_applicability(work, cases, shared=None, tag='mdlx'):
             if ln.startswith('snap') and o and o[0].startswith('H '):
                 l = [x for x in o if x.startswith('L ')]
                 t = l[0].split(' ') if l else None
-                flags.append((int(t[1]), int(t[2]), t[3] if len(t) > 3 else '') if t else None)
+                flags.append((int(t[1]), int(t[2]), t[3] if len(t) > 3 else '', int(t[4]) if len(t) > 4 and t[4] in '01' else None) if t else None)
         out[cid] = flags
     return out
 
